@@ -196,6 +196,12 @@ func runL0(seed int64, n int, dir string) error {
 				x := g.int64()
 				a = sval{tag: 'I', i: x}
 				b = sval{tag: 'R', bits: math.Float64bits(float64(x))}
+				if g.r.Intn(3) == 0 { // an integer and a REAL with the same integer part, either sign
+					x = int64(g.r.Intn(17)) - 8
+					a = sval{tag: 'I', i: x}
+					fr := []float64{-0.75, -0.5, -0.25, 0.25, 0.5, 0.75}[g.r.Intn(6)]
+					b = sval{tag: 'R', bits: math.Float64bits(float64(x) + fr)}
+				}
 				if g.r.Intn(2) == 0 {
 					a, b = b, a
 				}
